@@ -227,8 +227,13 @@ static void script_task(void *arg)
 			rec[k++] = (uint8_t)(base >> 8); rec[k++] = (uint8_t)base; rec[k++] = 0; rec[k++] = 1; rec[k++] = 0;
 			rec[k++] = (uint8_t)(base >> 8); rec[k++] = (uint8_t)(base + 2); rec[k++] = 0; rec[k++] = 1; rec[k++] = 7;
 			rec[3] = (uint8_t)((k - 5) >> 8); rec[4] = (uint8_t)(k - 5); rec[6] = 0; rec[7] = (uint8_t)((k - 9) >> 8); rec[8] = (uint8_t)(k - 9);
+			uint8_t sh[96]; size_t j = 0;
+			sh[j++] = 22; sh[j++] = 3; sh[j++] = 3; j += 2; sh[j++] = 2; j += 3;          /* ServerHello */
+			sh[j++] = 3; sh[j++] = 3; memcpy(sh + j, buf + 32, 32); j += 32; sh[j++] = 0;
+			sh[j++] = (w->id & 1) ? 0xe0 : 0xe0; sh[j++] = (w->id & 1) ? 0x11 : 0x13; sh[j++] = 0;    /* ECDHE-SM4-CBC-SM3 for odd tasks, ECC-SM4-CBC-SM3 for even ones */
+			sh[3] = (uint8_t)((j - 5) >> 8); sh[4] = (uint8_t)(j - 5); sh[6] = 0; sh[7] = (uint8_t)((j - 9) >> 8); sh[8] = (uint8_t)(j - 9);
 			FILE *mf = open_memstream(&txt, &tl);
-			if (mf) { DI(w, tls_record_print(mf, rec, k, 0, 0)); fclose(mf); D(w, txt, tl); free(txt); }
+			if (mf) { DI(w, tls_record_print(mf, rec, k, 0, 0)); DI(w, tls_record_print(mf, sh, j, 0, 0)); fclose(mf); D(w, txt, tl); free(txt); }
 			break; }
 		case 25: { /* a context of this task's own, configured through the public setters (each task its own verify depth) */
 			const CredSet *cr = creds_get(2, 0); TLS_CTX cx;
